@@ -398,6 +398,9 @@ def rmw_findings(m, body, tag):
     # group effects by the "section" they belong to, seen from `body`
     sections = {}   # section id -> {'reads': [...], 'writes': [...], 'bi': block in body, 'kind'}
     for ev, kind, info in effs:
+        if kind in ('store', 'guarded-replace') and any(l == lock and md == 'W' for l, md in info.get('locks', ())):
+            kind = WRITE_KINDS[tag][1]      # replacing the whole collection through the guard: a bulk write
+            info = dict(info, key=None, _store=True)
         if kind not in READ_KINDS[tag] + WRITE_KINDS[tag]:
             continue
         if not any(l == lock for l, _ in info.get('locks', ())):
@@ -455,6 +458,9 @@ def rmw_findings(m, body, tag):
                 same = None
                 for (ev1, k1, i1) in s1['reads']:
                     key1 = i1.get('key')
+                    if i2.get('_store') and (key1 is None or k1.endswith('bulk-read')):
+                        same = 'the whole collection is replaced by a value built from the earlier copy'
+                        continue
                     if key1 is not None and key2 and (set(key1) & set(key2)):
                         same = 'same key %s' % sorted(ex.describe(v) for v in (set(key1) & set(key2)))
                     elif key1 is None or k1.endswith('bulk-read'):
@@ -486,7 +492,15 @@ def rmw_findings(m, body, tag):
                             dep = True
                 else:
                     # direct section: the mutating call's value operands
-                    if ev2.frame.body.id == body.id and ev2.term is not None:
+                    if i2.get('_store') and ev2.frame.body.id == body.id and ev2.extra is not None:
+                        si2, st2 = ev2.extra
+                        rv2 = st2['r']
+                        ops2 = [rv2['o']] if rv2['k'] in ('use', 'cast') else rv2.get('ops', [])
+                        for a2 in ops2:
+                            calls, params = backward_slice(body, a2)
+                            if calls & res_calls:
+                                dep = True
+                    elif ev2.frame.body.id == body.id and ev2.term is not None:
                         topf = ex.top_frame(body)
                         for a2 in ev2.term['args'][1:]:
                             av = ex.absvals(topf, a2)
